@@ -1136,7 +1136,7 @@ func checkVoxelLattice(ctx *Ctx, r *Report) {
 	savedCap := termCap
 	termCap = 400000
 	defer func() { termCap = savedCap }()
-	ev2 := newEval(ctx)
+	ev2 := newEval(ctx, "Clamp")
 	res2, _ := ev2.evalRoot(meth)
 	c, _ := res2.(*Term)
 	if c == nil || ev2.Exceeded {
@@ -1145,6 +1145,35 @@ func checkVoxelLattice(ctx *Ctx, r *Report) {
 	}
 	recv := paramName(meth, 0)
 	pt := paramName(meth, 1)
+	// a query point clamped to the box first: the sample positions lie in the box, where the
+	// clamp is the identity (it must be a clamp of the point itself to the box's own corners)
+	clampOK := true
+	c = rebuild(c, func(x *Term) *Term {
+		if x.Op == "a" && strings.Contains(x.S, ".Clamp(") {
+			for _, ax := range []string{"X", "Y", "Z"} {
+				if strings.HasSuffix(x.S, ")."+ax) {
+					if !strings.Contains(x.S, "agg("+pt+".X,"+pt+".Y,"+pt+".Z)") || !strings.Contains(x.S, recv+".bb.Min.X") || !strings.Contains(x.S, recv+".bb.Max.X") {
+						clampOK = false
+					}
+					return A(pt + "." + ax)
+				}
+			}
+		}
+		return nil
+	})
+	// |q − clamp(q)| vanishes there
+	for i := 0; i < 3; i++ {
+		c = rebuild(c, func(x *Term) *Term {
+			if x.Op == "call" && x.S == "math.Sqrt" && len(x.Args) == 1 && x.Args[0].IsZero() {
+				return K(0)
+			}
+			return nil
+		})
+	}
+	if !clampOK {
+		r.check("M8", key, meth.Pos(), false, "the query point is clamped, but not to the corners of the stored box")
+		return
+	}
 	// the stored fields are named (N.X for numVoxels.X, ...) wherever they occur in the sample
 	// position, so that the substituted terms stay small
 	abbrev := map[string]*Term{}
